@@ -28,7 +28,20 @@ protected:
   bool ResultIsConstant() const { return prepro_.is_constant(); }
   bool ResultVarIsKnown() const { return prepro_.is_result_var_known(); }
   bool MapFind() {
-    const auto i = GetConverter().MapFind(GetConstraint());
+    auto i = GetConverter().MapFind(GetConstraint());
+    if (i>=0 && GetConstraint().UsesContext()) {
+      // Already reformulated, for one direction only?
+      // A new use may need the other direction,
+      // which would not be produced any more.
+      auto& ck = GetConverter().GetConstraintKeeper(
+            (Constraint*)0 );
+      if (ck.IsBridged(i) &&
+          !ck.GetConstraint(i).GetContext().IsMixed() &&
+          !GetConverter().DefersConversion(GetConstraint())) {
+        GetConverter().MapErase(GetConstraint());
+        i = -1;
+      }
+    }
     if (i>=0) {
       SetResultVar(GetConverter().
                    template GetConstraint<Constraint>(i).
